@@ -349,6 +349,10 @@ def run(repo: Repo, chk: Check) -> None:
     # ---- clause 4: Protocol.diff / Protocol.patch
     chk.set_clause('C30.4')
     wiring(repo, chk)
+    # ---- clause 5: the file table of a protocol (what diff and patch read and write): proto_to_files(files_to_proto(files)) == files, the text
+    #      going through ONE text codec in both directions
+    chk.set_clause('C30.5')
+    container(repo, chk)
     chk.exhaustive = False
 
 
@@ -461,6 +465,56 @@ def wiring(repo: Repo, chk: Check) -> None:
         chk.ob('R-TEMPLATE', patch.qualname, good, f'{label}: (filename, apply_patch(our text or "", diff)) per file, forwards', patch.loc,
                {'result': vrepr(res[0].value)[:400] if res else None},
                what='Protocol.patch does not apply each non-empty file diff forwards to our text (missing file = empty text) / does not keep the text for an empty diff')
+
+
+class _FilesHooks(Hooks):
+    def inline(self, it, fi):
+        return fi.name in ('files_to_proto', 'proto_to_files')
+
+    @staticmethod
+    def _codec(args, kwargs):
+        c = args[0] if args else kwargs.get('encoding', 'utf-8')
+        return str(c).lower().replace('_', '-').replace('utf8', 'utf-8') if isinstance(c, str) else c
+
+    def call(self, it, callee, args, kwargs, node):
+        if isinstance(callee, App) and callee.op == 'attr':
+            recv, name = callee.args
+            if name == 'encode' and isinstance(recv, Sym):
+                return App('encoded', recv, self._codec(args, kwargs))
+            if name == 'decode' and isinstance(recv, App) and recv.op == 'hexlified':
+                return App('hextext', recv.args[0])
+            if name == 'decode' and isinstance(recv, App) and recv.op == 'encoded':
+                return recv.args[0] if recv.args[1] == self._codec(args, kwargs) else App('decoded-with-another-codec', recv.args[0], recv.args[1], self._codec(args, kwargs))
+            if name == 'hex' and isinstance(recv, App) and recv.op == 'encoded':
+                return App('hextext', recv)
+        if isinstance(callee, ModRef) and callee.name in ('binascii.hexlify',) and args and isinstance(args[0], App):
+            return App('hexlified', args[0])
+        if isinstance(callee, ModRef) and callee.name in ('binascii.unhexlify',) and args and isinstance(args[0], App) and args[0].op == 'hextext':
+            return args[0].args[0]
+        if isinstance(callee, Builtin) and callee.name == 'bytes.fromhex' and args and isinstance(args[0], App) and args[0].op == 'hextext':
+            return args[0].args[0]
+        if isinstance(callee, ModRef) and callee.name in ('collections.OrderedDict',):
+            return {}
+        return NotImplemented
+
+
+def container(repo: Repo, chk: Check) -> None:
+    f2p, p2f = repo.func(f'{P}.files_to_proto'), repo.func(f'{P}.proto_to_files')
+    files = [('alpha.ml', Sym('impl_a', 'str')), ('alpha.mli', Sym('intf_a', 'str')), ('beta.ml', Sym('impl_b', 'str'))]
+    it = Interp(repo, _FilesHooks(), max_depth=3)
+
+    def go(i):
+        proto = i.call_function(FuncRef(f2p, None, False), [list(files)], {}, None, force_inline=True)
+        return i.call_function(FuncRef(p2f, None, False), [proto], {}, None, force_inline=True)
+
+    res = it.run_paths(go)
+    ok = len(res) == 1 and res[0].outcome == 'return' and isinstance(res[0].value, list)
+    got = sorted((f[0], vrepr(f[1])) for f in res[0].value) if ok else [(p.outcome, vrepr(p.value)[:80]) for p in res]
+    want = sorted((n, vrepr(t)) for n, t in files)
+    chk.ob('R-PAIR', p2f.qualname, ok and got == want, 'proto_to_files(files_to_proto(files)) gives the files back (same names, same text, one text codec)', p2f.loc,
+           {'got': got, 'want': want},
+           what=f'the file table of a protocol does not survive files_to_proto / proto_to_files: {got} instead of {want}: what Protocol.diff reads and '
+                'Protocol.patch writes is not the text of the source files (non-ASCII characters are mangled when the two sides use different codecs)')
 
 
 def controls(chk: Check) -> None:
